@@ -2,8 +2,9 @@
 
 The REAL code runs on a real temporary directory against an in-memory kazoo-client fake.
 Faults are injected inside the harness process at the boundaries of fs.write_safe's calls
-(temp file creation, inside the YAML dump, fchmod, replace, the final rm_safe), either as an
-exception or as a process kill (os._exit in a forked child)."""
+(temp file creation, inside the YAML dump, fchmod, replace, immediately after replace, the final
+rm_safe), either as an exception or as a process kill (os._exit in a forked child); immediately after
+os.replace returned a reader may also open <cache>/<instance> in the same process (observation point)."""
 import errno
 import json
 import os
@@ -34,8 +35,15 @@ def preamble():
             'Definition c12_cfg : cfg := {| c_pre := %s; c_post := %s; c_ready := %s |}.\n'
             % (G.string(f['pre']), G.string(f['post']), G.string(f['ready'])))
 READY = '.ready'
-POINTS = ['create', 'dump', 'chmod', 'replace', 'unlink']
-POINT_K = {'create': 0, 'dump': 2, 'chmod': 2, 'replace': 4, 'unlink': 5}
+POINTS = ['create', 'dump', 'chmod', 'replace', 'after_replace', 'unlink']
+# number of system calls of write_safe_ops that happened when the fault strikes
+POINT_K = {'create': 0, 'dump': 2, 'chmod': 2, 'replace': 4, 'after_replace': 5, 'unlink': 5}
+
+
+def is_probe(fault):
+    """'after_replace' without kill is not a fault but an observation point: a reader opens <cache>/<instance> in
+    the same process immediately after os.replace returned, before control is back in write_safe"""
+    return bool(fault) and fault['point'] == 'after_replace' and not fault['kill']
 KEYS = ['cpu', 'memory', 'disk', 'services', 'environment', 'identity', 'identity_count', 'expires', 'task',
         'name', 'endpoints', 'tickets']
 GARBAGE = ['cpu: 10%\nservices:\n- comm', '{"cpu": "10', 'services: [', '\x00\x00\x00', '- a\n- b\n']
@@ -259,10 +267,23 @@ def _drive(case, root, log_fd):
             fire()
         return real_fchmod(*a, **k)
 
-    def w_replace(*a, **k):
+    def w_replace(src, dst, *a, **k):
         if armed('replace'):
             fire()
-        return real_replace(*a, **k)
+        res = real_replace(src, dst, *a, **k)
+        if armed('after_replace'):
+            if fault['kill']:
+                fire()                      # the process dies right after rename(2) returned
+            cur['fired'] = True             # a reader looks at the instance name right now
+            try:
+                with open(dst, 'rb') as f:
+                    seen = f.read().decode('utf-8', 'replace')
+            except OSError as err:
+                seen = None
+                log('F', 'reader-error %s' % err)
+            log('R', json.dumps({'name': os.path.basename(dst), 'text': seen}))
+            log('F', 'after_replace')
+        return res
 
     def w_ntf(*a, **k):
         if armed('create'):
@@ -343,12 +364,23 @@ def impl_run(case):
         order = [l[1] for l in lines if l[0] in ('U', 'C')]
         err = ' '.join(l[1] for l in lines if l[0] == 'E')
         fired = any(l[0] == 'F' for l in lines)
+        reader = None
+        for l in lines:
+            if l[0] == 'R':
+                reader = json.loads(l[1])
+                text = reader['text']
+                try:
+                    parsed = yaml.safe_load(text) if text is not None else None
+                except Exception:       # pylint: disable=broad-except
+                    parsed = None
+                reader.update({'parsed': parsed if isinstance(parsed, dict) else None,
+                               'is_dict': isinstance(parsed, dict)})
         import glob as _glob
         listing = sorted(os.listdir(cache_dir))
         globbed = sorted(os.path.basename(p) for p in _glob.glob(os.path.join(cache_dir, '*')))
         entries = {n: _read_entry(os.path.join(cache_dir, n), yaml) for n in listing}
         return {'outcome': outcome, 'error': err, 'order': order, 'fired': fired, 'listing': listing,
-                'globbed': globbed, 'entries': entries}
+                'globbed': globbed, 'entries': entries, 'reader': reader}
     finally:
         shutil.rmtree(root, ignore_errors=True)
 
@@ -393,6 +425,16 @@ def oracle(case, o):
             out.append(('partial-or-foreign-manifest-visible',
                         'cache/%s is neither its old content nor the complete merged manifest: %r'
                         % (n, e.get('text', e)[:200])))
+    # a reader that opens the instance name right after the rename sees the old or the complete new manifest
+    rd = o.get('reader')
+    if rd is not None:
+        n = rd['name']
+        old_ok = n in prior and _same_as_prior(rd, prior[n])
+        new_ok = n in fetchable and rd.get('is_dict') and rd['parsed'] == _merged(case, n)
+        if not (old_ok or new_ok):
+            out.append(('partial-or-foreign-manifest-visible',
+                        'a reader opening cache/%s immediately after os.replace returned sees neither the old content '
+                        'nor the complete merged manifest: %r' % (n, (rd.get('text') or '')[:200])))
     # dot files: untouched; a kill may leave exactly one temporary file
     new_dots = [n for n in o['listing'] if n.startswith('.') and n not in prior and n != READY]
     for n in prior:
@@ -405,7 +447,7 @@ def oracle(case, o):
         out.append(('temp-file-left-behind', 'more than one temporary file after a kill: %r' % new_dots))
     if o['outcome'] == 9:
         out.append(('harness-child-failed', o['error']))
-    if o['outcome'] == 1 and not o['fired'] and all('#' in n for n in exp):
+    if o['outcome'] == 1 and (not o['fired'] or is_probe(case['fault'])) and all('#' in n for n in exp):
         out.append(('synchronize-raised-without-fault', o['error']))
     if o['outcome'] == 0:
         for n in visible:
@@ -542,7 +584,7 @@ def case_term(case, o):
                              % (G.opt(p['data'], lambda x: t_dict(x, kid, vid)), G.z(ct))))
     orc = []
     f = case['fault']
-    if f:
+    if f and not is_probe(f):
         cfgpre = '.%s-' % f['app']
         sfx = 'x'
         for n in _leftover(case, o):
@@ -619,8 +661,9 @@ def run(tier, seed):
         'rule': 'seeded generator: 7 instance names; each independently placed / with manifest node / with placement '
                 'node (all 8 combinations), with or without a prior cache file (same or different manifest, or garbage), '
                 'placement ctime older/equal/newer than the file; .ready and stale temp files; check_existing on/off; '
-                '55% of cases inject one fault (create, inside dump at a cut, fchmod, replace, final unlink) as exception '
-                'or kill; non-trivial = (an extra entry and a fetched entry) or a fault fired',
+                '55% of cases inject one fault (create, inside dump at a cut, fchmod, replace, right after replace, final '
+                'unlink) as exception or kill; right after replace without kill = a reader opens the instance name in the '
+                'same process before control returns to write_safe; non-trivial = (an extra entry and a fetched entry) or a fault fired',
         'trusted': TRUSTED, 'assumptions': ASSUMPTIONS, 'anchors': ANCHORS, 'extra': _extra,
     })
 
